@@ -5,13 +5,15 @@ import framing
 COQ_HEADER = "From SPP Require Import Base.Bytes Base.Sx Corr.Framer.\nFrom Coq Require Import ZArith List. Import ListNotations."
 COQ_MODEL = "run_c02"
 COQ_OK = "(ok_spec spec_c02)"
-COQ_INPUT_TYPE = "Z * Z * list (list (Z * Z) * list (Z * Z)) * list Z"
+COQ_INPUT_TYPE = "Z * Z * Z * list (list (Z * Z) * list (Z * Z)) * list Z"
 SHARD = 60
 RULE = ("packet lists of 0-6 packets, data sizes from {1,2,5,6,7,255,4096,65535,65536}, prefix k in {0,1,4,13}, "
-        "kinds bytes/file(read sizes)/socket(cuts inside header, on boundaries, byte-at-a-time); "
+        "kinds bytes/file(read sizes)/socket(cuts inside header, on boundaries, byte-at-a-time); every third stream also with the "
+        "buffer-trim literal of the code object replaced by a small number (0,1,6,7,20,100,300) and the same number given to the model; "
         "distinct = distinct (kind, k, #packets, size classes, chunking class)")
 ASSUMPTIONS = ["file read(n)/socket recv(n) return the next min(n, remaining) bytes (reader contract)",
-               "the >20 MB trim branch is exercised on the implementation and judged against the spec directly (extra)"]
+               "the buffer-trim branch is reached two ways: >20 MB streams judged against the spec directly (extra), and small streams "
+               "with the literal 20_000_000 of ccsds_generator's code object replaced by a small number (same number in the model)"]
 
 
 def gen_stream(rng, small):
@@ -57,6 +59,13 @@ def gen(rng, tier):
             frs.append([])
         for sizes in frs:
             cases.append(dict(base, kind=2, sizes=sizes, r=None))
+        if i % 3 == 0:
+            start = len(cases) - (1 + len(rs) + len(frs))
+            T = rng.choice([0, 1, 6, 7, 20, 100, 300])
+            for c in cases[start:]:
+                cases.append(dict(c, T=T))
+    for c in cases:
+        c.setdefault("T", framing.TRIM_LITERAL)
     return cases
 
 
@@ -66,24 +75,28 @@ def _stream(case):
 
 def impl(case):
     stream = _stream(case)
+    case.setdefault("T", framing.TRIM_LITERAL)
+    if framing.generator_with_trim(case["T"]) is None:      # the literal is gone from the code: run the case unmodified
+        case["T"] = framing.TRIM_LITERAL
     out = core.guarded(framing.run_generator, case["kind"], case["k"], stream, case["sizes"], case["r"],
-                       len(case["pps"]) + 3, timeout_s=20)
+                       len(case["pps"]) + 3, case["T"], timeout_s=20)
     return core.res_sx(out)
 
 
 def coq_input(case):
     pps = core.clist(f"({core.cbytes(bytes.fromhex(a))}, {core.cbytes(bytes.fromhex(b))})" for a, b in case["pps"])
-    return f"({case['kind']}, {case['k']}, {pps}, {core.clist(str(s) for s in case['sizes'])})"
+    return f"({case.get('T', framing.TRIM_LITERAL)}, {case['kind']}, {case['k']}, {pps}, {core.clist(str(s) for s in case['sizes'])})"
 
 
 def key(case):
     szs = tuple(sorted(set(min(len(b) // 2, 70000) for _, b in case["pps"])))
     ch = "none" if not case["sizes"] else ("one" if len(case["sizes"]) == 1 else ("bytewise" if max(case["sizes"]) == 1 else f"{min(len(case['sizes']), 6)}"))
-    return (case["kind"], case["k"], len(case["pps"]), szs, ch)
+    return (case["kind"], case["k"], len(case["pps"]), szs, ch, case.get("T", framing.TRIM_LITERAL) != framing.TRIM_LITERAL)
 
 
 def branch(case, out):
-    return f"kind{case['kind']}:k{case['k']}:{'err' if isinstance(out, core.Err) else 'ok'}"
+    t = "" if case.get("T", framing.TRIM_LITERAL) == framing.TRIM_LITERAL else ":trim"
+    return f"kind{case['kind']}:k{case['k']}{t}:{'err' if isinstance(out, core.Err) else 'ok'}"
 
 
 def size(case):
